@@ -166,6 +166,7 @@ func (vc *VC) compileClause(env *Env, cl *Clause) (t string) {
 }
 
 func (vc *VC) execReturn(ins *ssa.Return) {
+	vc.returnMarks = append(vc.returnMarks, reachMark{at: len(vc.items), pc: vc.cur.pc, pos: int(ins.Pos())})
 	if vc.c == nil {
 		return
 	}
